@@ -37,7 +37,7 @@ func init() {
 		Rule: "mutated: generated GSUB/GPOS/GDEF tables (alphabets with and without glyph 0, GDEF with glyph class values beyond 4, up to 120 mark glyph sets, sets of up to 2300 glyphs) are encoded, mutated at the byte level (0-4 mutations), re-read with gtab.Read/gdef.Read and applied to 4 sequences of length 0..200 over the full glyph id range (biased to glyphs the tables mention); " +
 			"hostile: 17 named hostile shapes x 6 contextual formats built as structures, encoded, re-read (the shape must survive the round trip) and applied; the structure itself is applied as well; hostile-bytes: 9 hostile GSUB shapes (incl. aliasing (type, format) pairs and 5 subtable kinds x 8 inconsistent coverage tables) written byte by byte from the specification (no library encoder involved), read and applied; " +
 			"history: one Context reused for 1..30 calls alternating benign and budget-exhausting inputs, each result compared with a fresh Context; layouter: sfnt.Layouter reused over several strings vs a fresh Layouter; " +
-			"evaluations = Apply/Layout calls judged; distinct = distinct (table bytes, sequence) pairs",
+			"evaluations = Apply/Layout calls judged; distinct = distinct (table bytes, sequence) pairs Further: layouter histories with the same text laid out twice after the first result was edited in place; long-history (one Context over more than 2^22 and 2^23 subtable attempts, compared with new Contexts).",
 		Assumptions: []string{
 			"excluded as in the property: value records with YAdvance or device offsets and GPOS type 5 are removed from the decoded tables before Apply",
 			"a panic of gtab.Read/gdef.Read on mutated bytes is the business of C02 and only counted here",
